@@ -15,6 +15,7 @@
 import OQuPyVerif.Lemmas.Correlations
 import OQuPyVerif.Lemmas.CorrelationsParse
 import OQuPyVerif.Lemmas.CorrelationsBath
+import OQuPyVerif.Lemmas.CorrelationsBathSteps
 import Mathlib.LinearAlgebra.Matrix.Trace
 import Mathlib.LinearAlgebra.Matrix.ConjTranspose
 
@@ -577,6 +578,76 @@ theorem sys_corr_feeds :
       "self._calc_kernel(freq_1, time_1, freq_2, time_2, dagg)",
       "_sys_correlations.real * re_kernel + 1j * _sys_correlations.imag * im_kernel"] := by
   decide
+
+/-- Every float time → step conversion of the bath-correlation code (`generate_system_correlations`,
+    `correlation`, and `ker_dim` / `switch` of `_calc_kernel`) maps a time that lies within a quarter
+    step of grid step `m` to `m` — in binary64, for every `dt` and every `|m| ≤ 2^40`; in
+    particular times written as decimal literals and times computed as `k*dt`. -/
+theorem bath_steps_round (t dt : Rat) (m : Int) (hm : |(m : Rat)| ≤ 2 ^ 40)
+    (h : |t / dt - m| ≤ 1 / 4) :
+    corr_mat_dim t dt = m ∧ correlation_corr_mat_dim t dt = m ∧ kernel_ker_dim t dt = m ∧
+      kernel_switch t dt = m :=
+  ⟨round_step_of_near t dt m hm h, round_step_of_near t dt m hm h,
+   round_step_of_near t dt m hm h, round_step_of_near t dt m hm h⟩
+
+/-- `occupation` integrates up to `last_time = len(process_tensor)·dt`; all conversions give
+    back `len(process_tensor)`. -/
+theorem bath_last_time_step (n : Int) (dt : Rat) (hdt : 0 < dt) (hn : |(n : Rat)| ≤ 2 ^ 40) :
+    corr_mat_dim (occupation_last_time n dt) dt = n ∧
+    kernel_ker_dim (occupation_last_time n dt) dt = n ∧
+    kernel_switch (occupation_last_time n dt) dt = n :=
+  ⟨(bath_steps_round _ dt n hn (last_time_near n dt hdt hn)).1,
+   (bath_steps_round _ dt n hn (last_time_near n dt hdt hn)).2.2.1,
+   (bath_steps_round _ dt n hn (last_time_near n dt hdt hn)).2.2.2⟩
+
+/-- The time axis returned by `occupation()`: it has `len(process_tensor) + 1` entries — exactly
+    one per returned value (one per kernel column plus the leading 0) — the k-th entry is `k·dt`
+    in binary64 (the label rule of C13 with start 0), and the last one is the time up to which
+    the kernels integrate.  (The historical `np.arange(0, last_time + dt, dt)` had one entry too
+    many for 2, 11, 12, 14, 23, … steps.) -/
+theorem occupation_axis (n : Int) (dt : Rat) (hdt : 0 < dt) (hn : |(n : Rat)| ≤ 2 ^ 40) :
+    occupation_tlist_count n dt = n + 1 ∧
+    occupation_tlist_count n dt = kernel_ker_dim (occupation_last_time n dt) dt + 1 ∧
+    (∀ k, occupation_tlist_label n dt k = fmul (ofInt k) dt) ∧
+    occupation_tlist_label n dt n = occupation_last_time n dt ∧
+    occupation_values =
+      ["np.cumsum(np.sum(_sys_correlations.real * re_kernel + 1j * _sys_correlations.imag * im_kernel, axis=0)).real * coup",
+       "np.append([0], bath_occupation)"] := by
+  refine ⟨rfl, ?_, fun _ => rfl, rfl, by decide⟩
+  rw [(bath_last_time_step n dt hdt hn).2.1]
+  rfl
+
+/-- what the float-stepped range gave for 2 steps of 0.1: `ceil((0.2 + 0.1)/0.1) = 4` times -/
+example : ceilInt (fdiv (fadd (fmul (ofInt 2) (lit 1 1)) (lit 1 1)) (lit 1 1)) = 4 := by
+  decide +kernel
+example : occupation_tlist_count 2 (lit 1 1) = 3 ∧ (0 : Rat) < lit 1 1 := by decide +kernel
+
+/-- these four are all the integer conversions in `TwoTimeBathCorrelations` -/
+theorem bath_int_conversions_listed :
+    bath_int_conversions = ["int(np.round(final_time / dt))", "int(np.round(time_1 / dt))",
+                            "int(np.round(time_2 / dt))", "int(np.round(time_2 / dt))"] := by
+  decide
+
+/-- decimal literals on the grid, exhaustively in the kernel (non-vacuity of `bath_steps_round`,
+    and the rows on which truncation instead of rounding loses a step):
+    `m/10` with dt = 0.1, `5m/100` with dt = 0.05, `2m/10` with dt = 0.2, all `m ≤ 100`. -/
+theorem bath_steps_literals :
+    litRowOK kernel_switch (fun m => m) 1 1 1 100 = true ∧
+    litRowOK kernel_ker_dim (fun m => m) 1 1 1 100 = true ∧
+    litRowOK correlation_corr_mat_dim (fun m => m) 1 1 1 100 = true ∧
+    litRowOK corr_mat_dim (fun m => m) 1 1 1 100 = true ∧
+    litRowOK kernel_switch (fun m => 5 * m) 2 5 2 100 = true ∧
+    litRowOK kernel_ker_dim (fun m => 5 * m) 2 5 2 100 = true ∧
+    litRowOK kernel_switch (fun m => 2 * m) 1 2 1 100 = true ∧
+    litRowOK kernel_ker_dim (fun m => 2 * m) 1 2 1 100 = true := by
+  decide +kernel
+
+example : kernel_switch (lit 3 1) (lit 1 1) = 3 ∧ kernel_switch (lit 7 1) (lit 1 1) = 7 ∧
+    kernel_switch (lit 15 2) (lit 5 2) = 3 := by decide +kernel
+/-- what truncation would give for the literal 0.3 with dt = 0.1 (and for 43·0.1) -/
+example : truncInt (fdiv (lit 3 1) (lit 1 1)) = 2 ∧
+    truncInt (fdiv (fmul (ofInt 43) (lit 1 1)) (lit 1 1)) = 42 := by decide +kernel
+example : |(lit 3 1) / (lit 1 1) - ((3 : Int) : Rat)| ≤ 1 / 4 := by decide +kernel
 
 /-- `slice(b)` with `0 ≤ b ≤ maxStep+1` selects `0, …, b−1` -/
 theorem parse_slice_upto (maxStep : Int) (dt start : Rat) (b : Int) (h : 0 ≤ b ∧ b ≤ maxStep + 1) :
